@@ -11,6 +11,8 @@ mod pt;
 mod c01;
 mod c01x;
 mod c02;
+mod c05x;
+mod histprops;
 mod hist;
 mod hrun;
 
@@ -48,9 +50,44 @@ fn main() {
     if std::env::var("OXIDD_STACK_SIZE").is_err() {
         unsafe { std::env::set_var("OXIDD_STACK_SIZE", "16777216") };
     }
+    if prop == "DBG" {
+        // vrun dbg <tier-ignored> --replay file : run a history in-process with dumps
+        let v: serde_json::Value = serde_json::from_str(&std::fs::read_to_string(cfg.replay.as_ref().unwrap()).unwrap()).unwrap();
+        let case = &v["case"];
+        let hc: hist::HCfg = serde_json::from_value(case["cfg"].clone()).unwrap();
+        let ops: Vec<hist::Op> = serde_json::from_value(case["ops"].clone()).unwrap();
+        let checks = hist::Checks { canon: true, structure: true, rc: true, node_count: true };
+        macro_rules! go {
+            ($K:ty) => {{
+                use kinds::BoolKind;
+                let mut h = hist::Hist::<$K>::new(&hc, checks);
+                for (i, op) in ops.iter().enumerate() {
+                    println!("--- step {i}: {op:?}");
+                    let r = h.step(op);
+                    println!("{}", <$K>::dump(&h.mr));
+                    for (j, e) in h.pool.iter().enumerate() {
+                        use oxidd::Function;
+                        println!("  pool[{j}] table {:?} root {:?}", e.t, e.f.with_manager_shared(|_, ed| { use oxidd::Edge; ed.node_id() }));
+                    }
+                    if let Err(e) = r {
+                        println!("FAIL: {e}");
+                        break;
+                    }
+                }
+            }};
+        }
+        match case["kind"].as_str().unwrap() {
+            "bdd" => go!(kinds::BddK),
+            "bcdd" => go!(kinds::BcddK),
+            _ => go!(kinds::ZbddK),
+        }
+        return;
+    }
     let code = match prop.as_str() {
         "C01" => c01::run(&cfg),
         "C02" => c02::run(&cfg),
+        "C03" => histprops::c03(&cfg),
+        "C05" => histprops::c05(&cfg),
         _ => {
             eprintln!("no check for {prop}");
             2
